@@ -6,7 +6,7 @@
    walks over all parents, not older than the cut-off. *)
 From Coq Require Import List Permutation NArith ZArith.
 From GixV.Base Require Import Bytes Outcome.
-From GixV.C47 Require Import Model Spec ProofsHeap ProofsWalk Proofs ProofsTopo.
+From GixV.C47 Require Import Model Spec ProofsHeap ProofsWalk Proofs ProofsTopo ProofsTopoAll.
 Import ListNotations.
 
 (* every commit is returned at most once — every object database (any graph, even cyclic), any tips (also
@@ -56,9 +56,10 @@ Theorem heap_pop_none_is_empty :
   forall (K V : Type) (le : K -> K -> bool) (l : @heap K V), heap_pop le l = None -> l = [].
 Proof. intros. eapply heap_pop_none; eauto. Qed.
 
-(* ---- Topo (topo::Builder::build + Iterator::next), object databases without commit-graph data, every tips /
-   ends / predicate / sorting / parents mode / fuel ---- *)
-(* no commit is returned twice (also with repeated tips: fix e60a841bd) *)
+(* ---- Topo (topo::Builder::build + Iterator::next): every tips / ends / predicate / sorting / parents mode / fuel ---- *)
+(* no commit is returned twice (also with repeated tips: fix e60a841bd) — object databases without commit-graph
+   data ([no_graph]: the walk is eager; with generation numbers in-degrees grow lazily and the statement needs
+   their consistency, which is only tested) *)
 Theorem topo_each_once :
   forall o first F pred date tips ends items,
     no_graph o ->
@@ -66,13 +67,13 @@ Theorem topo_each_once :
     NoDup (map fst items).
 Proof. intros o first F pred date tips ends items NG H. exact (proj1 (topo_walk_facts o first F tips NG pred date ends items H)). Qed.
 
-(* every returned commit is reachable from a tip along the (first) parents the walk follows *)
+(* every returned commit is reachable from a tip along the (first) parents the walk follows — EVERY object
+   database, with or without (even inconsistent) commit-graph data *)
 Theorem topo_subset_reachable_from_tips :
   forall o first F pred date tips ends items x,
-    no_graph o ->
     topo_walk o first F pred date tips ends = Ok items ->
     In x (map fst items) -> reach o first (fun _ => true) tips x.
-Proof. intros o first F pred date tips ends items x NG H. exact (proj2 (topo_walk_facts o first F tips NG pred date ends items H) x). Qed.
+Proof. intros o first F pred date tips ends items x H. exact (topo_walk_reach o first F tips pred date ends items H x). Qed.
 
 (* ---- non-vacuity: a history with a merge, colliding times, a repeated tip ---- *)
 Definition ex_odb : odb :=
